@@ -170,4 +170,58 @@ Section Alg.
   (* translation and scaling *)
   Lemma set_nth_length (l : list T) j x : length (set_nth l j x) = length l.
   Proof. revert j. induction l as [|y l IH]; intros [|j]; cbn [set_nth length]; auto. Qed.
+
+  (* row i of the identity with entry j replaced by x, against (v, 1):  v_i (if j <> i) + x * (v,1)_j *)
+  Lemma sdot_unit_row dim i : forall (w : list T) k, (k + length w = S dim)%nat -> (i < dim)%nat ->
+    sdot (map (fun j => if Nat.eqb i j then 1 else 0) (seq k (length w))) w = if Nat.ltb i k then 0 else nth (i - k) w 0.
+  Proof.
+    induction w as [|x w IH]; intros k Hk Hi; cbn [length seq map sdot] in *.
+    - destruct (Nat.ltb_spec i k); [reflexivity|lia].
+    - rewrite IH by lia. destruct (Nat.eqb_spec i k) as [->|Hne].
+      + rewrite Nat.sub_diag. destruct (Nat.ltb_spec k (S k)); [|lia]. destruct (Nat.ltb_spec k k); [lia|]. cbn [nth]. ring.
+      + destruct (Nat.ltb_spec i (S k)); destruct (Nat.ltb_spec i k); try lia; try ring.
+        replace (i - k)%nat with (S (i - S k)) by lia. cbn [nth]. ring.
+  Qed.
+
+  Lemma sdot_set_nth (row : list T) : forall (w : list T) j x, length row = length w -> (j < length w)%nat ->
+    sdot (set_nth row j x) w = sdot row w + (rsub x (nth j row 0)) * nth j w 0.
+  Proof.
+    induction row as [|a row IH]; intros [|b w] j x Hl Hj; cbn [length] in *; try lia.
+    destruct j as [|j]; cbn [set_nth sdot nth].
+    - ring.
+    - rewrite IH by lia. ring.
+  Qed.
+
+  Lemma nth_identity_row dim i j : (j < S dim)%nat -> nth j (identity_row 0 1 dim i) 0 = if Nat.eqb i j then 1 else 0.
+  Proof.
+    intros Hj. unfold identity_row. rewrite (nth_indep _ 0 ((fun j0 => if Nat.eqb i j0 then 1 else 0) O)) by (now rewrite map_length, seq_length).
+    rewrite (map_nth (fun j0 => if Nat.eqb i j0 then 1 else 0)). now rewrite seq_nth.
+  Qed.
+
+  Lemma sdot_identity_row' dim i v : (i < dim)%nat -> length v = dim -> sdot (identity_row 0 1 dim i) (v ++ [1]) = nth i v 0.
+  Proof. intros Hi Hv. now apply sdot_identity_row. Qed.
+
+  (* C09: translation(t) x = x + t   and   scaling(s) x = s * x, componentwise *)
+  Theorem translation_apply t v : length v = length t ->
+    apply (translation 0 1 t) v = map (fun i => nth i v 0 + nth i t 0) (seq 0 (length t)).
+  Proof.
+    intros Hl. unfold translation, affine_apply, AlgebraCore.mat_vec. rewrite map_map.
+    apply map_ext_in. intros i Hi. apply in_seq in Hi. rewrite dot0, sdot_set_nth.
+    - rewrite sdot_identity_row' by lia. rewrite nth_identity_row by lia.
+      destruct (Nat.eqb_spec i (length t)); [lia|].
+      rewrite app_nth2 by lia. replace (length t - length v)%nat with O by lia. cbn [nth]. ring.
+    - unfold identity_row. rewrite map_length, seq_length, app_length. cbn [length]. lia.
+    - rewrite app_length. cbn [length]. lia.
+  Qed.
+
+  Theorem scaling_apply s v : length v = length s ->
+    apply (scaling 0 1 s) v = map (fun i => nth i s 0 * nth i v 0) (seq 0 (length s)).
+  Proof.
+    intros Hl. unfold scaling, affine_apply, AlgebraCore.mat_vec. rewrite map_map.
+    apply map_ext_in. intros i Hi. apply in_seq in Hi. rewrite dot0, sdot_set_nth.
+    - rewrite sdot_identity_row' by lia. rewrite nth_identity_row by lia. rewrite Nat.eqb_refl.
+      rewrite app_nth1 by lia. ring.
+    - unfold identity_row. rewrite map_length, seq_length, app_length. cbn [length]. lia.
+    - rewrite app_length. cbn [length]. lia.
+  Qed.
 End Alg.
